@@ -140,45 +140,131 @@ theorem mem_used (mentions : String → Scalar → Bool) (docs : List Doc) (keys
 
 /-! ## placeholder report loop -/
 
-theorem phLoop_failedKeys (hasPh : String → Bool) (filter : String → Bool) (resolve : String → String)
-    (doc : Doc) (allKeys : List String)
-    (hk : ∀ k ∈ allKeys, ∀ v : Scalar, hasPh v.text = true → k ≠ v.text) :
-    ∀ (rest : Flat) (acc : PhReport), (∀ kv ∈ rest, kv.1 ∈ allKeys) → (∀ k ∈ acc.failedKeys, k ∈ allKeys) →
+/-- membership in the result of the loop (the code at HEAD tests the KEY, D32): the keys already failed and
+    the keys of the remaining entries that fail — for EVERY list, duplicate keys included -/
+theorem phLoop_failedKeys_mem (hasPh : String → Bool) (filter : String → Bool) (resolve : String → String)
+    (doc : Doc) : ∀ (rest : Flat) (acc : PhReport) (k : String),
+      k ∈ (phLoop hasPh filter resolve doc rest acc).failedKeys ↔
+        k ∈ acc.failedKeys ∨ ∃ kv ∈ rest, kv.1 = k ∧
+          (filter kv.1 && hasPh kv.2.text && (kv.2.text == resolve kv.2.text)) = true := by
+  intro rest
+  induction rest with
+  | nil => intro acc k; simp [phLoop]
+  | cons kv r ih =>
+    intro acc k0
+    obtain ⟨k, v⟩ := kv
+    simp only [phLoop]
+    by_cases hcond : (filter k && hasPh v.text && (v.text == resolve v.text)) = true
+    · by_cases hc : acc.failedKeys.contains k = true
+      · rw [if_neg (by rw [hcond, hc]; simp)]
+        rw [ih]
+        have hm := List.contains_iff_mem.mp hc
+        constructor
+        · rintro (h | ⟨kv, hkv, h1, h2⟩)
+          · exact Or.inl h
+          · exact Or.inr ⟨kv, List.mem_cons_of_mem _ hkv, h1, h2⟩
+        · rintro (h | ⟨kv, hkv, h1, h2⟩)
+          · exact Or.inl h
+          · rcases List.mem_cons.mp hkv with rfl | hkv
+            · exact Or.inl (h1 ▸ hm)
+            · exact Or.inr ⟨kv, hkv, h1, h2⟩
+      · have hc' : acc.failedKeys.contains k = false := by simpa using hc
+        rw [if_pos (by rw [hcond, hc']; rfl)]
+        rw [ih]
+        simp only [List.mem_append, List.mem_singleton]
+        constructor
+        · rintro ((h | rfl) | ⟨kv, hkv, h1, h2⟩)
+          · exact Or.inl h
+          · exact Or.inr ⟨(k0, v), List.mem_cons_self .., rfl, hcond⟩
+          · exact Or.inr ⟨kv, List.mem_cons_of_mem _ hkv, h1, h2⟩
+        · rintro (h | ⟨kv, hkv, h1, h2⟩)
+          · exact Or.inl (Or.inl h)
+          · rcases List.mem_cons.mp hkv with rfl | hkv
+            · exact Or.inl (Or.inr h1.symm)
+            · exact Or.inr ⟨kv, hkv, h1, h2⟩
+    · rw [if_neg (by
+        intro h
+        apply hcond
+        simp only [Bool.and_eq_true] at h ⊢
+        exact h.1)]
+      rw [ih]
+      constructor
+      · rintro (h | ⟨kv, hkv, h1, h2⟩)
+        · exact Or.inl h
+        · exact Or.inr ⟨kv, List.mem_cons_of_mem _ hkv, h1, h2⟩
+      · rintro (h | ⟨kv, hkv, h1, h2⟩)
+        · exact Or.inl h
+        · rcases List.mem_cons.mp hkv with rfl | hkv
+          · exact absurd h2 hcond
+          · exact Or.inr ⟨kv, hkv, h1, h2⟩
+
+/-- no key is recorded twice -/
+theorem phLoop_failedKeys_nodup (hasPh : String → Bool) (filter : String → Bool) (resolve : String → String)
+    (doc : Doc) : ∀ (rest : Flat) (acc : PhReport), acc.failedKeys.Nodup →
+      (phLoop hasPh filter resolve doc rest acc).failedKeys.Nodup := by
+  intro rest
+  induction rest with
+  | nil => intro acc h; simpa [phLoop] using h
+  | cons kv r ih =>
+    intro acc h
+    obtain ⟨k, v⟩ := kv
+    simp only [phLoop]
+    split
+    · rename_i hc
+      apply ih
+      simp only [Bool.and_eq_true, Bool.not_eq_true'] at hc
+      have hnm : k ∉ acc.failedKeys := fun hm => by
+        have := List.contains_iff_mem.mpr hm
+        rw [this] at hc
+        exact absurd hc.2 (by simp)
+      exact List.nodup_append.mpr ⟨h, by simp, by
+        intro a ha b hb
+        simp only [List.mem_singleton] at hb
+        subst hb
+        intro e; exact hnm (e ▸ ha)⟩
+    · exact ih _ h
+
+/-- on a list with pairwise distinct keys (the flattening of a Go map) the membership test never fires:
+    the failed keys are, in visiting order, the keys of the failing entries -/
+theorem phLoop_failedKeys_list (hasPh : String → Bool) (filter : String → Bool) (resolve : String → String)
+    (doc : Doc) : ∀ (rest : Flat) (acc : PhReport), (rest.map (·.1)).Nodup →
+      (∀ k ∈ acc.failedKeys, k ∉ rest.map (·.1)) →
       (phLoop hasPh filter resolve doc rest acc).failedKeys =
         acc.failedKeys ++ (rest.filter fun kv => filter kv.1 && hasPh kv.2.text && (kv.2.text == resolve kv.2.text)).map (·.1) := by
   intro rest
   induction rest with
   | nil => intro acc _ _; simp [phLoop]
   | cons kv r ih =>
-    intro acc hr ha
+    intro acc hnd ha
     obtain ⟨k, v⟩ := kv
+    simp only [List.map_cons, List.nodup_cons] at hnd
     simp only [phLoop]
-    have hkm : k ∈ allKeys := hr (k, v) (List.mem_cons_self ..)
-    have hr' : ∀ kv ∈ r, kv.1 ∈ allKeys := fun kv h => hr kv (List.mem_cons_of_mem _ h)
+    have hnc : acc.failedKeys.contains k = false := by
+      cases hc : acc.failedKeys.contains k with
+      | false => rfl
+      | true => exact absurd (List.mem_cons_self ..) (ha k (List.contains_iff_mem.mp hc))
     by_cases hcond : (filter k && hasPh v.text && (v.text == resolve v.text)) = true
-    · have hph : hasPh v.text = true := by
-        simp only [Bool.and_eq_true] at hcond; exact hcond.1.2
-      have hnc : acc.failedKeys.contains v.text = false := by
-        cases hc : acc.failedKeys.contains v.text with
-        | false => rfl
-        | true =>
-          have hm := List.contains_iff_mem.mp hc
-          exact absurd rfl (hk _ (ha _ hm) v hph)
-      rw [if_pos (by rw [hcond, hnc]; rfl)]
-      rw [ih _ hr' (by
+    · rw [if_pos (by rw [hcond, hnc]; rfl)]
+      rw [ih _ hnd.2 (by
         intro k' hk'
         simp only [List.mem_append, List.mem_singleton] at hk'
         rcases hk' with h | rfl
-        · exact ha _ h
-        · exact hkm)]
+        · exact fun hm => ha k' h (List.mem_cons_of_mem _ hm)
+        · exact hnd.1)]
       simp only [List.filter_cons, hcond, if_true, List.map_cons, List.append_assoc, List.singleton_append]
     · rw [if_neg (by
         intro h
         apply hcond
         simp only [Bool.and_eq_true] at h ⊢
         exact h.1)]
-      rw [ih _ hr' ha]
+      rw [ih _ hnd.2 (fun k' hk' hm => ha k' hk' (List.mem_cons_of_mem _ hm))]
       simp only [List.filter_cons, hcond, Bool.false_eq_true, if_false]
+
+/-- sorted duplicate-free string lists with the same members are equal -/
+theorem eq_of_sorted_nodup_mem {l₁ l₂ : List String} (h₁ : l₁.Pairwise (· ≤ ·)) (n₁ : l₁.Nodup)
+    (h₂ : l₂.Pairwise (· ≤ ·)) (n₂ : l₂.Nodup) (h : ∀ x, x ∈ l₁ ↔ x ∈ l₂) : l₁ = l₂ :=
+  List.Perm.eq_of_pairwise (le := (· ≤ ·)) (fun _ _ _ _ hab hba => String.le_antisymm hab hba) h₁ h₂
+    ((List.perm_ext_iff_of_nodup n₁ n₂).mpr h)
 
 /-! ## impact -/
 
